@@ -5,7 +5,7 @@
   All theorems hold for every idna codec, every sequence of events, every addon script (`acts`: what the addons do in
   each hook) and every script of connect outcomes (`conns`).
 -/
-import MitmVerif.Lemmas.C27b
+import MitmVerif.Lemmas.C27c
 import MitmVerif.Props.C25
 set_option linter.unusedVariables false
 set_option linter.unusedSimpArgs false
@@ -639,5 +639,217 @@ theorem bad_length_closes (c : Cfg) (htcp : c.tcp = true) (σ : State) (hq : σ.
     exact ⟨by simp [ended], fun _ => rfl, by simp [ended]⟩
 
 example : (parse noIdna (frame q1)).2 = ([], false) ∧ (parse noIdna (frame q1)).1.length = 1 := by decide +kernel
+
+/-! ### the upstream server's stream: the layer does not depend on its segmentation either -/
+
+private theorem stable_step_server (c : Cfg) (htcp : c.tcp = true) (σ : State) (h : StableR c σ) (d : Bytes) :
+    StableR c (step c σ (.serverData d)).1 := by
+  rcases step_server_stable c htcp σ d with h' | h'
+  · exact h'
+  · rw [h']; exact h
+
+/-- the layer fed with the upstream server's segments, as an `Incremental` consumer (Basic/Seg) -/
+def serverFeed (c : Cfg) (htcp : c.tcp = true) : Incremental { σ : State // StableR c σ } Out where
+  feed σ seg := (⟨(step c σ.1 (.serverData seg)).1, stable_step_server c htcp σ.1 σ.2 seg⟩, (step c σ.1 (.serverData seg)).2)
+
+theorem serverFeed_lawful (c : Cfg) (htcp : c.tcp = true) : (serverFeed c htcp).Lawful := by
+  constructor
+  · intro ⟨σ, hσ⟩
+    simp only [serverFeed]
+    have := step_server_nil c htcp σ hσ
+    simp [this]
+  · intro ⟨σ, hσ⟩ a b
+    simp only [serverFeed]
+    have := server_seg_law c htcp σ a b
+    simp [this]
+
+private theorem feedAll_run_server (c : Cfg) (htcp : c.tcp = true) : ∀ (segs : List Bytes) (σ : { σ : State // StableR c σ }),
+    run c σ.1 (segs.map .serverData) = (((serverFeed c htcp).feedAll σ segs).1.1, ((serverFeed c htcp).feedAll σ segs).2) := by
+  intro segs
+  induction segs with
+  | nil => intro σ; simp [run, Incremental.feedAll]
+  | cons seg segs ih =>
+    intro σ
+    simp only [List.map_cons, run, Incremental.feedAll]
+    rw [ih ⟨(step c σ.1 (.serverData seg)).1, stable_step_server c htcp σ.1 σ.2 seg⟩]
+    simp [serverFeed]
+
+/-- **C27 (the layer ignores the segmentation of the upstream's stream).** Over TCP, in any state whose response
+    buffer holds no complete frame (every reachable state, see `reachable_stable_server`) — i.e. for any set of
+    pending queries, any remaining addon script — any two segmentations of the same byte stream sent by the upstream
+    server lead to the same `dns_response` hooks, the same messages sent to the client, the same closes and the same
+    final state. -/
+theorem layer_seg_independent_server (c : Cfg) (htcp : c.tcp = true) (σ : State) (hσ : StableR c σ) (a b : List Bytes)
+    (h : a.flatten = b.flatten) : run c σ (a.map .serverData) = run c σ (b.map .serverData) := by
+  rw [feedAll_run_server c htcp a ⟨σ, hσ⟩, feedAll_run_server c htcp b ⟨σ, hσ⟩,
+    Incremental.seg_independent' (serverFeed c htcp) (serverFeed_lawful c htcp) ⟨σ, hσ⟩ a b h]
+
+/-- … in particular the same as for delivery in one piece -/
+theorem layer_seg_independent_server_whole (c : Cfg) (htcp : c.tcp = true) (σ : State) (hσ : StableR c σ) (segs : List Bytes) :
+    run c σ (segs.map .serverData) = step c σ (.serverData segs.flatten) := by
+  rw [feedAll_run_server c htcp segs ⟨σ, hσ⟩,
+    Incremental.seg_independent (serverFeed c htcp) (serverFeed_lawful c htcp) ⟨σ, hσ⟩ segs]
+  rfl
+
+/-- every state reached from a fresh layer has a response buffer without complete frame -/
+theorem reachable_stable_server (c : Cfg) (htcp : c.tcp = true) (acts : List Act) (conns : List Bool) (evs : List Ev) :
+    StableR c (run c (init acts conns) evs).1 := by
+  have hstep : ∀ (σ : State) (ev : Ev), StableR c σ → StableR c (step c σ ev).1 := by
+    intro σ ev h
+    cases ev with
+    | serverData d => exact stable_step_server c htcp σ h d
+    | clientData d =>
+      unfold step
+      split
+      · exact h
+      · simp only [stepClient]
+        split
+        · simp [StableR, ended, parse_nil]
+        · split
+          · simp [StableR, ended, parse_nil]
+          · exact h
+    | clientClose =>
+      unfold step
+      split
+      · exact h
+      · simp [StableR, ended, parse_nil]
+    | serverClose =>
+      unfold step
+      split
+      · exact h
+      · simp only
+        split
+        · simp [StableR, ended, parse_nil]
+        · exact h
+  have hrun : ∀ (evs : List Ev) (σ : State), StableR c σ → StableR c (run c σ evs).1 := by
+    intro evs
+    induction evs with
+    | nil => intro σ h; exact h
+    | cons ev evs ih => intro σ h; exact ih _ (hstep σ ev h)
+  exact hrun evs _ (by simp [StableR, init, parse_nil])
+
+-- two pending queries; `[r1][bad frame]` from the upstream whole, split after r1 and split inside the length prefix
+example : run tcp (init [] []) (.clientData (frame q1 ++ frame q2) :: [frame r1 ++ [0, 0]].map .serverData) =
+    run tcp (init [] []) (.clientData (frame q1 ++ frame q2) :: [frame r1, [0], [0]].map .serverData) := by
+  simp only [run]
+  congr 1
+  · congr 1
+    exact layer_seg_independent_server tcp rfl _
+      (reachable_stable_server tcp rfl [] [] [.clientData (frame q1 ++ frame q2)]) _ _ (by simp)
+  · congr 1
+    exact congrArg Prod.snd (layer_seg_independent_server tcp rfl _
+      (reachable_stable_server tcp rfl [] [] [.clientData (frame q1 ++ frame q2)]) _ _ (by simp))
+
+/-- **C27 (a malformed length prefix from the upstream closes its connection).** Over TCP, when the bytes received
+    from the open upstream connection consist of complete frames followed by a zero length prefix, the replies in
+    front of it are handled, then the layer closes the server connection and is done for good (unless an exception
+    already left the layer while handling them). -/
+theorem bad_length_closes_server (c : Cfg) (htcp : c.tcp = true) (σ : State) (hq : σ.core.phase = .query)
+    (ho : σ.core.serverOpen = true) (d x rest : Bytes) (ms : List Msg)
+    (hx : σ.respBuf ++ d = x ++ 0 :: 0 :: rest) (hms : parse c.I x = (ms, [], false)) :
+    let r := step c σ (.serverData d)
+    r.1.core.phase ≠ .query ∧
+    (r.1.core.phase = .done → r.2 = (handleMsgs c false σ.core ms).2 ++ [.closeServer] ∧ r.1.core.serverOpen = false) ∧
+    (r.1.core.phase = .crashed → .crash ∈ r.2) := by
+  have hp := parse_zero_after c.I x rest ms hms
+  rw [← hx] at hp
+  intro r
+  have hr : r = (if (handleMsgs c false σ.core ms).1.phase = .crashed then
+        (ended (handleMsgs c false σ.core ms).1, (handleMsgs c false σ.core ms).2)
+      else (ended { (handleMsgs c false σ.core ms).1 with phase := .done, serverOpen := false },
+            (handleMsgs c false σ.core ms).2 ++ [.closeServer])) := by
+    simp [r, step, hq, ho, stepServer, extract, htcp, hp]
+  by_cases hc : (handleMsgs c false σ.core ms).1.phase = .crashed
+  · rw [if_pos hc] at hr
+    rw [hr]
+    exact ⟨by simp [ended, hc], by simp [ended, hc],
+      fun _ => handleMsgs_server_crash c ms σ.core (by rw [hq]; simp) hc⟩
+  · rw [if_neg hc] at hr
+    rw [hr]
+    exact ⟨by simp [ended], fun _ => ⟨rfl, rfl⟩, by simp [ended]⟩
+
+/-! ### arbitrary interleavings: only the bytes between two changes of direction matter -/
+
+/-- merge `cur` with the data events of the same direction that follow it directly -/
+def coalesceInto : Ev → List Ev → List Ev
+  | cur, [] => [cur]
+  | cur, ev :: rest =>
+    match cur, ev with
+    | .clientData a, .clientData b => coalesceInto (.clientData (a ++ b)) rest
+    | .serverData a, .serverData b => coalesceInto (.serverData (a ++ b)) rest
+    | _, _ => cur :: coalesceInto ev rest
+
+/-- the schedule with every maximal run of segments of one direction delivered in one piece; the order of everything
+    else (which bytes of the client precede which bytes of the server, closes) is kept -/
+def coalesce : List Ev → List Ev
+  | [] => []
+  | ev :: rest => coalesceInto ev rest
+
+private theorem run_merge_client (c : Cfg) (htcp : c.tcp = true) (σ : State) (a b : Bytes) (rest : List Ev) :
+    run c σ (.clientData (a ++ b) :: rest) = run c σ (.clientData a :: .clientData b :: rest) := by
+  simp only [run, client_seg_law c htcp σ a b, List.append_assoc]
+
+private theorem run_merge_server (c : Cfg) (htcp : c.tcp = true) (σ : State) (a b : Bytes) (rest : List Ev) :
+    run c σ (.serverData (a ++ b) :: rest) = run c σ (.serverData a :: .serverData b :: rest) := by
+  simp only [run, server_seg_law c htcp σ a b, List.append_assoc]
+
+private theorem run_coalesceInto (c : Cfg) (htcp : c.tcp = true) : ∀ (rest : List Ev) (cur : Ev) (σ : State),
+    run c σ (coalesceInto cur rest) = run c σ (cur :: rest) := by
+  intro rest
+  induction rest with
+  | nil => intro cur σ; rfl
+  | cons ev rest ih =>
+    intro cur σ
+    have other : run c σ (cur :: coalesceInto ev rest) = run c σ (cur :: ev :: rest) := by
+      simp only [run]; rw [ih ev]; simp only [run]
+    cases cur with
+    | clientData a =>
+      cases ev with
+      | clientData b => simp only [coalesceInto]; rw [ih, run_merge_client c htcp]
+      | _ => simpa only [coalesceInto] using other
+    | serverData a =>
+      cases ev with
+      | serverData b => simp only [coalesceInto]; rw [ih, run_merge_server c htcp]
+      | _ => simpa only [coalesceInto] using other
+    | clientClose => cases ev <;> simpa only [coalesceInto] using other
+    | serverClose => cases ev <;> simpa only [coalesceInto] using other
+
+/-- **C27 (segmentation never matters, in any interleaving).** Over TCP, from any state and for any schedule of
+    client segments, server segments and closes: delivering every maximal run of consecutive segments of one direction
+    in one piece changes nothing — same hooks, same bytes sent, same closes, same final state. -/
+theorem run_coalesce (c : Cfg) (htcp : c.tcp = true) (σ : State) (evs : List Ev) :
+    run c σ (coalesce evs) = run c σ evs := by
+  cases evs with
+  | nil => rfl
+  | cons ev rest => exact run_coalesceInto c htcp rest ev σ
+
+/-- **C27 (interleaved schedules that differ only in segmentation are indistinguishable).** Two schedules in which
+    client and server bytes are interleaved in the same way — the same bytes between any two changes of direction, the
+    same closes at the same places, so every reply byte keeps its position relative to the query bytes — but which
+    are cut into segments differently, lead to the same hooks, the same bytes sent to client and server, the same
+    closes and the same final state, whatever the addons and the connect attempts do. -/
+theorem interleaved_seg_independent (c : Cfg) (htcp : c.tcp = true) (σ : State) (evs evs' : List Ev)
+    (h : coalesce evs = coalesce evs') : run c σ evs = run c σ evs' := by
+  rw [← run_coalesce c htcp σ evs, ← run_coalesce c htcp σ evs', h]
+
+-- query cut inside its length prefix, reply cut in three, trailing garbage byte by byte: same as whole delivery
+example : coalesce [.clientData [0], .clientData (frame q1).tail, .serverData (frame r1 ++ [0]), .serverData [0], .clientClose] =
+    coalesce [.clientData (frame q1), .serverData [0], .serverData (frame r1).tail, .serverData [0, 0], .clientClose] := by
+  decide +kernel
+
+/-- every segmentation of a stream coalesces to the stream in one piece (so `interleaved_seg_independent` relates
+    every two segmentations of the same interleaved byte streams) -/
+theorem coalesce_segments (a : Bytes) (segs : List Bytes) :
+    coalesce ((a :: segs).map .clientData) = [.clientData (a :: segs).flatten] ∧
+    coalesce ((a :: segs).map .serverData) = [.serverData (a :: segs).flatten] := by
+  constructor
+  · simp only [List.map_cons, coalesce]
+    induction segs generalizing a with
+    | nil => simp [coalesceInto]
+    | cons b segs ih => simp only [List.map_cons, coalesceInto]; rw [ih]; simp
+  · simp only [List.map_cons, coalesce]
+    induction segs generalizing a with
+    | nil => simp [coalesceInto]
+    | cons b segs ih => simp only [List.map_cons, coalesceInto]; rw [ih]; simp
 
 end MitmVerif.Props.C27
